@@ -4,7 +4,7 @@ import os, re, sys, json, glob, gzip, time, shutil, base64, subprocess, concurre
 
 ENTRIES = ['lp-real', 'lp-rational', 'mps-real', 'mps-rational', 'basis', 'settings-file', 'settings-string']
 KIND = ['l', 'l', 'm', 'm', 'b', 's', 's']
-MAX_RESTARTS = 12
+MAX_RESTARTS = 30
 
 
 def _cnt(ctx, name, v=1):
@@ -109,6 +109,12 @@ def _fuzz_one(ctx, e, j, runs, guard):
         if k == KIND[e] and os.path.getsize(p) <= 4096:
             shutil.copy(p, os.path.join(corp, 'shipped-' + f))
     dictp = os.path.join(ctx['VERIF'], 'fuzz', 'read.dict')
+    if e in (1, 3) and ctx.get('c13_rational_fpe'):
+        # while ratFromString dies with SIGFPE on exponents beyond 308 every such dictionary token stops the rational fuzzers: leave them out
+        dictp = os.path.join(wd, 'read_no_huge_exponents.dict')
+        if not os.path.exists(dictp):
+            keep = [l for l in open(os.path.join(ctx['VERIF'], 'fuzz', 'read.dict')) if not re.search(r'"(1e309|1e-400|1e999999|1e308)"', l)]
+            open(dictp, 'w').write(''.join(keep))
     remaining, restarts, seen = runs, 0, set()
     tot_execs = cov = corpn = 0
     stats_sum = {}
@@ -237,8 +243,34 @@ def _probe_eof_hang(ctx):
     return False
 
 
+def _probe_rational_fpe(ctx):
+    """does a literal with an exponent beyond 308 kill the rational LP reader (SIGFPE inside GMP)?"""
+    wd = ctx['workdir']
+    tmp = os.path.join(wd, 'probe2')
+    os.makedirs(tmp, exist_ok=True)
+    p = os.path.join(tmp, 'hugeexp.lp')
+    open(p, 'w').write('Minimize\n obj: 1e400 x1\nSubject To\n c1: x1 >= 1\nEnd\n')
+    env = _fuzz_env(ctx, 1, tmp, os.path.join(tmp, 'side.txt'), os.path.join(tmp, 'stats.txt'), False)
+    try:
+        r = subprocess.run([ctx['bin'], p, '-timeout=30'], stdout=subprocess.PIPE, stderr=subprocess.STDOUT, env=env, cwd=tmp, timeout=180)
+        out, rc = r.stdout.decode(errors='replace'), r.returncode
+    except subprocess.TimeoutExpired:
+        return False
+    if rc != 0 and 'FPE' in out:
+        key, kind = _fuzz_key(ctx, 1, out, rc)
+        if key:
+            _viol(ctx, key, 'libFuzzer probe input `obj: 1e400 x1` in rational read mode', stderr=out, replay=dict(entry='lp-rational', input_b64=base64.b64encode(open(p, 'rb').read()).decode()))
+        return True
+    return False
+
+
 def libfuzzer(ctx):
     t0 = time.time()
+    ctx['c13_rational_fpe'] = _probe_rational_fpe(ctx)
+    if ctx['c13_rational_fpe']:
+        _cnt(ctx, 'fuzz.rational_dictionary_without_huge_exponents')
+        _inconclusive(ctx, 'rational entry points were fuzzed without the >308 exponent dictionary tokens because ratFromString dies with SIGFPE on them '
+                      '(exponents of 1..6 digits are enumerated by h_read)')
     guard = _probe_eof_hang(ctx)
     _cnt(ctx, 'fuzz.mps_eof_guard', 1 if guard else 0)
     if guard:
